@@ -1,4 +1,4 @@
-import LZ4V.Proofs.FastDSProof
+import LZ4V.Proofs.FastDSCap
 import LZ4V.Proofs.Arith
 /-!
 # C17 — destSize compressors fill the budget with a decodable prefix (arithmetic of the `fillOutput` adaptations)
@@ -63,5 +63,11 @@ theorem destSize_decodes_to_consumed_prefix (src : Array UInt8) (acceleration : 
     (h : LZ4V.Model.FastDS.compressDestSize src acceleration target = some (consumed, blk)) :
     consumed ≤ src.size ∧ LZ4V.Spec.Block.decode [] blk = some (src.toList.take consumed) :=
   LZ4V.Model.FastDS.compressDestSize_prefix src acceleration target consumed blk h
+
+/-- **destSize never exceeds its target**: the block the model returns is at most `target` bytes long (its output position is exactly the
+    serialised length; after every sequence `1 + LASTLITERALS` bytes of the budget remain; the last run is adapted to what is left) -/
+theorem destSize_fits_target (src : Array UInt8) (acceleration : Int) (target consumed : Nat) (blk : List UInt8)
+    (h : LZ4V.Model.FastDS.compressDestSize src acceleration target = some (consumed, blk)) : blk.length ≤ target :=
+  LZ4V.Model.FastDS.compressDestSize_fits src acceleration target consumed blk h
 
 end LZ4V.C17
